@@ -1,0 +1,43 @@
+//go:build verif
+
+package archive
+
+import "io"
+
+// Verification hooks (build tag verif); not part of the normal build.
+
+// VerifStripComponents exposes stripComponents.
+func VerifStripComponents(path string, count int) string { return stripComponents(path, count) }
+
+// VerifMember is one member as delivered by Archive.Next.
+type VerifMember struct {
+	Name    string
+	Size    int64
+	Content []byte
+}
+
+// VerifMembers opens the archive at path with openArchive (content sniffing included) and drains
+// tarArchive.Next / zipArchive.Next, returning the members in iteration order.
+func VerifMembers(path string) ([]VerifMember, error) {
+	a, err := openArchive(path)
+	if err != nil {
+		return nil, err
+	}
+	defer a.Close()
+	var out []VerifMember
+	for {
+		f, err := a.Next()
+		if err == io.EOF {
+			return out, nil
+		}
+		if err != nil {
+			return out, err
+		}
+		b, err := io.ReadAll(f)
+		f.Close()
+		if err != nil {
+			return out, err
+		}
+		out = append(out, VerifMember{Name: f.Name, Size: f.Size, Content: b})
+	}
+}
